@@ -79,12 +79,35 @@ def _one_report_per_signature(ctx):
   return seen
 
 
-def _check_mirror(behs):
-  """harness/c14_wire.py (the Python byte builder other checks use) against TLC's EncStack"""
+def _strip_eol(opts):
+  out = []
+  for x in opts:
+    if x["k"] == 0:
+      break
+    out.append(x)
+  return out
+
+
+def _check_mirror(behs, structured=None):
+  """harness/c14_wire.py (the Python byte builder other checks use) against TLC's EncStack; its reading of the
+  structured TCP options (mp_fields, which tells the adapter what to build) against TLC's OptView"""
   for b in behs:
     stack = b[0]["args"]["pkt"]
     built = b[0]["a"] == "Build"
     for st in b:
+      if st["a"] == "Parse":
+        for L, V in zip(b[0]["args"]["pkt"], st["exp"]["view"]):
+          if L["p"] == "tcp" and V["p"] == "tcp":
+            if [W.opt_view(x) for x in _strip_eol(L["opts"])] != V["opts"]:
+              raise core.Machinery("harness/c14_wire.py:mp_fields disagrees with MpFields of PktWireLayers.tla on %s"
+                                   % (b[0]["args"]["d"],))
+            if structured is not None:
+              for x in V["opts"]:
+                if x["f"]:
+                  structured[(b[0]["a"], x["f"][0]["v"][0], tuple(sorted((e["n"], len(e["v"])) for e in x["f"])),
+                              tuple(bool(any(e["v"][:4])) for e in x["f"] if e["n"] in ("ack", "dsn")))] += 1
+                elif x["k"] == 30:
+                  structured[(b[0]["a"], "opaque", x["d"][0] >> 4)] += 1
       if st["a"] == "Change" and built and len(b) == 4:
         stack = W.apply_edit(stack, st["args"])           # Build, Pack, Change, PackAgain: the edited stack
       w = (st["exp"] if st["a"] == "Pack" or (st["a"] == "PackAgain" and built)
@@ -108,6 +131,31 @@ def _vacuity(behs, mc, name):
     raise tlc.TLCError("PktWire_MX_%s.cfg explored %d states for %d cases: invariants not evaluated on every phase"
                        % (name, mc.distinct, cases))
   return cnt, cases
+
+
+def _vacuity_options(ctx, structured):
+  """the structured-option dimension was really explored: through both entries (Build ; Pack and Feed) every
+  Multipath TCP layout with named fields - MP_CAPABLE with one and two keys, the three MP_JOIN forms, DSS with every
+  combination of Data ACK width (none, 4, 8 octets) and data sequence number width - and opaque subtypes; 64-bit
+  numbers with and without significant upper halves"""
+  for entry in ("Build", "Feed"):
+    lay = {(k[1], tuple(n for n, _ in k[2])) for k in structured if k[0] == entry and k[1] != "opaque"}
+    want = {(0, ("flags", "skey", "subtype", "version")), (0, ("flags", "rkey", "skey", "subtype", "version")),
+            (1, ("addr", "flags", "rtoken", "srand", "subtype")), (1, ("addr", "flags", "shmac", "srand", "subtype")),
+            (1, ("addr", "flags", "shmac", "subtype")), (2, ("ack", "flags", "subtype")),
+            (2, ("csum", "dsn", "flags", "length", "seq", "subtype")),
+            (2, ("ack", "csum", "dsn", "flags", "length", "seq", "subtype"))}
+    if want - lay:
+      raise tlc.TLCError("Multipath TCP option layouts never reached Parse after %s: %s" % (entry, sorted(want - lay)))
+    # Data ACK / DSN width combinations, seen as which of the two has a significant upper half
+    widths = {k[3] for k in structured if k[0] == entry and k[1] == 2}
+    need = {(True,), (False,), (True, True), (True, False), (False, True), (False, False)}
+    if need - widths:
+      raise tlc.TLCError("DSS width combinations (Data ACK, DSN upper half used) never explored after %s: %s"
+                         % (entry, sorted(need - widths)))
+    if not any(k[0] == entry and k[1] == "opaque" for k in structured):
+      raise tlc.TLCError("no Multipath TCP option with an opaque subtype reached Parse after %s" % entry)
+  ctx.notes["structured_tcp_options"] = {str(k): structured[k] for k in sorted(structured, key=str)}
 
 
 def run(ctx):
@@ -136,6 +184,9 @@ def _run(ctx, quick):
       "fields wider than 24 bits cross the TLC boundary as byte lists; payloads are pattern bytes (a + b*i mod 256)",
       "structural fields are consistent with the stack (ethertype / IP protocol / ports select the next header, "
       "IHL matches the options, 802.3 length matches, MPLS S bit marks the bottom); IPv4 id is set explicitly",
+      "Multipath TCP options (kind 30) with a field layout in RFC 6824 (MP_CAPABLE, MP_JOIN, DSS with a checksum) are "
+      "compared field by field (MpFields / OptView; the adapter reads the option objects' attributes, None = absent "
+      "field; 32/64-bit numbers as eight octets); reserved bits are zero; other subtypes are opaque data",
       "TCP option lists are compared up to the end-of-list option; DHCP pad options and whether repeated DNS names "
       "are compressed carry no information (either serialisation is accepted); ports that select a UDP payload "
       "parser (53, 67, 68, 520, 4789, 5353) are excluded from the free values of plain UDP stacks",
@@ -157,12 +208,13 @@ def _run(ctx, quick):
   templates = {}
   free = []              # free-form stacks (the spec exports only Feed, Parse for them): the sender's half goes to TLC
   agg = collections.Counter()
+  structured = collections.Counter()      # Multipath TCP option layouts that reached Parse, per entry (Build / Feed)
   for n in names:
     r, behs = exs[n]
     cnt, cases = _vacuity(behs, mcs[n], n)
     agg.update(cnt)
     ctx.add_model("PktWire %s corpus: %d cases, all invariants + ObservationsOK" % (n, cases), mcs[n])
-    _check_mirror(behs)
+    _check_mirror(behs, structured)
     st = core.replay(ctx, ADAPTER, behs, params=dict(layouts=lay), chunk=60,
                      nontrivial=lambda b: len(b[0]["args"]["pkt"]) > 1)
     ctx.notes["replay_" + n] = dict(behaviours=len(behs), cases=cases, **st)
@@ -180,10 +232,12 @@ def _run(ctx, quick):
   fake.coverage = {a: (0, n) for a, n in agg.items()}
   tlc.require_coverage(fake, ACTIONS, "PktWire (all corpora)")
   ctx.notes["steps_per_action"] = dict(agg)
+  _vacuity_options(ctx, structured)
   ctx.notes["mirror_cross_check"] = "harness/c14_wire.py == EncStack on every exported case"
   # code -> spec: random values on every shape, TLC decides
   tpl = [templates[k][1] for k in sorted(templates)]
-  ntr = 300 if quick else 10000
+  ntr = max(300, len(tpl)) if quick else 10000       # (every shape at least once)
+  ctx.notes["random_templates"] = len(tpl)
   items = [(ctx.seed * 1000003 + i, tpl[i % len(tpl)], i % 3 == 2) for i in range(ntr)]
   # free-form stacks exactly as TLC exported them: once built and packed by the library, and fed to its parser
   # (uncompressed / suffix-compressed) and re-packed; what the library emits is judged by TLC (PackAs / RepackAs)
@@ -360,7 +414,14 @@ def randomise(rnd, tpl):
         L[e["n"]] = v
     if p == "tcp":
       for o in L["opts"]:
-        o["d"] = [rnd.randint(0, 255) for _ in o["d"]]
+        if o["k"] == 30 and o["d"]:
+          # Multipath TCP: the subtype (and the DSS flags, which fix the layout) belong to the shape
+          keep = 2 if o["d"][0] >> 4 == 2 else 1
+          o["d"] = ([o["d"][0] if keep == 2 else (o["d"][0] & 0xf0) | rnd.randint(0, 15)] + o["d"][1:keep]
+                    + [rnd.choice([0, 255, rnd.randint(0, 255)]) if rnd.random() < 0.2 else rnd.randint(0, 255)
+                       for _ in o["d"][keep:]])
+        else:
+          o["d"] = [rnd.randint(0, 255) for _ in o["d"]]
     elif p == "dhcp" and L["hlen"] == 6:
       L["chaddr"] = L["chaddr"][:6] + [0] * 10        # unused hardware address bytes are zero
     elif p == "vxlan" and L["flags"] == 0:
